@@ -153,6 +153,8 @@ impl Prop for C03 {
         let source = if big {
             let n = rng.range(120, 230);
             (0..n).map(|i| format!("v{}\n", i)).collect::<String>()
+        } else if rng.chance(1, 25) {
+            py::deep_source(rng)
         } else {
             py::gen_any_source(rng, 10, 25)
         };
@@ -161,6 +163,9 @@ impl Prop for C03 {
         }
         let tree = parse_python(&source);
         let ti = TreeInfo::new(&tree);
+        if ti.nodes.iter().any(|n| n.depth > 256) {
+            out.feat("tree_deeper_than_256_levels");
+        }
         if ti.anomaly.is_some() {
             out.inconclusive("tree-sitter anomaly");
             return;
